@@ -37,9 +37,19 @@ def assemble(template_path):
         contract = []
         loopspecs = {}
         i += 1
-        while i < len(lines) and re.match(r"^\s*//@(\||loop\s+\d+\|)", lines[i]):
+        while i < len(lines) and re.match(r"^\s*//@(\||loop\s+\d+\||loopbody\s+\d+\||loopbefore\s+\d+\|)", lines[i]):
+            pm = re.match(r"^\s*//@loopbefore\s+(\d+)\|\s?(.*)$", lines[i])
+            if pm:
+                # ghost statements placed immediately before the n-th loop
+                loopspecs.setdefault(1000 + int(pm.group(1)), []).append(pm.group(2))
+                i += 1
+                continue
             lm = re.match(r"^\s*//@loop\s+(\d+)\|\s?(.*)$", lines[i])
-            if lm:
+            bm = re.match(r"^\s*//@loopbody\s+(\d+)\|\s?(.*)$", lines[i])
+            if bm:
+                # ghost statements (proof blocks) placed at the start of the n-th loop's body
+                loopspecs.setdefault(-int(bm.group(1)), []).append(bm.group(2))
+            elif lm:
                 loopspecs.setdefault(int(lm.group(1)), []).append(lm.group(2))
             else:
                 contract.append((re.sub(r"^\s*//@\|\s?", "", lines[i]), i + 1))
@@ -76,7 +86,7 @@ def assemble(template_path):
                 linemap.append((len(out), ("contract", tl, sel[-1], cl.strip())))
             if loopspecs:
                 body = splice_loops(body, loopspecs)
-                rec["changed"].append("ghost loop specifications (invariant/decreases) spliced before the body of loop(s) " + ", ".join(str(k) for k in sorted(loopspecs)) + "; executable text unchanged")
+                rec["changed"].append("ghost loop specifications (invariant/decreases; `proof { }` blocks at the start of a loop body) spliced into loop(s) " + ", ".join(sorted({str(abs(k) % 1000) for k in loopspecs})) + "; executable text unchanged")
             body_first_line = src.count("\n", 0, it.body_start) + 1
             for k, bl in enumerate(body.split("\n")):
                 out.append(indent + bl if k == 0 else bl)
@@ -104,7 +114,9 @@ def splice_loops(body, loopspecs):
     for idx, (k, t, p) in enumerate(toks):
         if k == "ident" and t in ("while", "for", "loop"):
             n += 1
-            if n in loopspecs:
+            if 1000 + n in loopspecs:
+                inserts.append((p, "\n    ".join(loopspecs[1000 + n]) + "\n    "))
+            if n in loopspecs or -n in loopspecs:
                 depth = 0
                 for k2, t2, p2 in toks[idx + 1:]:
                     if k2 == "punct" and t2 in "([":
@@ -112,11 +124,14 @@ def splice_loops(body, loopspecs):
                     elif k2 == "punct" and t2 in ")]":
                         depth -= 1
                     elif k2 == "punct" and t2 == "{" and depth == 0:
-                        inserts.append((p2, "\n      " + "\n      ".join(loopspecs[n]) + "\n    "))
+                        if -n in loopspecs:
+                            inserts.append((p2 + 1, "\n      " + "\n      ".join(loopspecs[-n])))
+                        if n in loopspecs:
+                            inserts.append((p2, "\n      " + "\n      ".join(loopspecs[n]) + "\n    "))
                         break
     for p, text in sorted(inserts, reverse=True):
         body = body[:p] + text + body[p:]
-    missing = [k for k in loopspecs if k > n]
+    missing = [k for k in loopspecs if (abs(k) % 1000) > n]
     if missing:
         raise extract.AnchorLost(f"loop {missing} not found in body")
     return body
